@@ -166,5 +166,8 @@ SPEC = dict(
                            temps=["job", "operation", "viability_term", "max_constraints_per_variable", "start_time"]),
              params=[("variable_viability_terms", "variable_viability_terms", List(OP))],
              extra_params=ENC_EXTRA, self_attrs=ENC_SELF, state=ENC_STATE, returns=List(OP)),
+        dict(py="JSSPDomainWallHamiltonianEncoder._prepare_hamiltonian", source=ENC_SRC, gen="Enc_ham_precedence_terms",
+             fragment=dict(path=[], count=3, outputs=["precedence_terms"], temps=["job", "i"]),
+             params=[], extra_params=ENC_EXTRA, self_attrs=ENC_SELF, state=ENC_STATE, returns=List(OP), locals={"precedence_terms": List(OP)}),
     ],
 )
